@@ -13,6 +13,12 @@ For an object ``o`` taken at some moment of its life and ``r = restore(serialize
                   independently
     (5) purity    serializing does not change the observable state of ``o``
 
+Grammar life moments ("ops" / "grammar_ops"): read-only queries fill internal caches (cached schema, validator, pydantic
+model) that edits may not invalidate; operation sequences (vlib.gen.c20_objects.random_grammar_ops + directed ones) are
+applied to standalone grammars and to the grammars of disciplines before serializing; required names, defaults, types
+and the validation verdicts on a data battery (every name left out in turn, wrong types, unknown name) must be equal,
+and the disciplines are then executed on inputs with names left out at random.
+
 Monitors: M4 (the restored twin is the differential oracle), M8 anchors.  See DESIGN.md section 3, C20.
 The objects are built by ``vlib.gen.c20_objects`` (module level classes / functions so that pickle can find them).
 """
@@ -43,7 +49,10 @@ RULE = (
     "table of objects (every class of the discipline and MDA factories that can be built offline, chains, scenarios "
     "per formulation, MDOFunction variants, design/parameter spaces, optimization problems, grammar and cache types, "
     "harness disciplines over generated coupled systems x grammar type x cache type) x life moment (fresh, after "
-    "executions, after linearizations, after a failed execution, after a scenario/driver run) x protocol "
+    "executions, after linearizations, after a failed execution, after a scenario/driver run, and - for standalone "
+    "grammars of every type and for the input/output grammars of ten disciplines - after directed and seeded random "
+    "sequences of read-only queries (schema, to_json, validate, to_simple_grammar, copy) interleaved with edits "
+    "(required names add/remove/discard/clear, defaults, update_from_names/types, rename, restrict)) x protocol "
     "(pickle.dumps/loads with the default protocol and protocol 2, two successive pickle round trips, "
     "to_pickle/from_pickle, copy.deepcopy, and a pickle file restored and exercised in a fresh interpreter); a case is "
     "distinct by (entry, moment, protocol) and non-trivial when the round trip returned an object on which at "
@@ -88,14 +97,18 @@ MIN_COUNTERS = {
               "moment_failed_cases": 10, "scenario_runs_compared": 9, "round_trips_kind_discipline": 180,
               "round_trips_kind_scenario": 9, "round_trips_kind_function": 22, "round_trips_kind_space": 7,
               "round_trips_kind_problem": 8, "round_trips_kind_grammar": 14, "round_trips_kind_cache": 4,
-              "factory_classes_covered": 60},
+              "factory_classes_covered": 60, "grammar_op_sequences": 140,
+              "grammar_op_sequences_with_cached_read_then_required_edit": 60, "grammar_ops_applied": 400,
+              "grammar_validation_verdicts_compared": 2000},
     "thorough": {"round_trips": 1350, "round_trips_process": 90, "static_views_compared": 1350,
                  "behaviour_comparisons": 6600, "jacobian_comparisons": 3000, "cached_input_replays": 600,
                  "identity_walks": 1250, "independence_checks": 8500, "counter_checks": 2500,
                  "counter_checks_with_nonzero_counters": 750, "purity_checks": 1250, "moment_failed_cases": 40,
                  "scenario_runs_compared": 40, "round_trips_kind_discipline": 1050, "round_trips_kind_scenario": 44,
                  "round_trips_kind_function": 100, "round_trips_kind_space": 32, "round_trips_kind_problem": 31,
-                 "round_trips_kind_grammar": 64, "round_trips_kind_cache": 16, "factory_classes_covered": 60},
+                 "round_trips_kind_grammar": 64, "round_trips_kind_cache": 16, "factory_classes_covered": 60,
+                 "grammar_op_sequences": 400, "grammar_op_sequences_with_cached_read_then_required_edit": 150,
+                 "grammar_ops_applied": 1000, "grammar_validation_verdicts_compared": 5000},
 }
 SHARD_TIMEOUT = {"quick": 3000, "thorough": 14000}  # generous: only a guard against hanging (the machine may be shared)
 
@@ -116,6 +129,8 @@ def moments_of(kind, entry):
             m.append("linearized")
         if entry.get("fail"):
             m.append("failed")
+        if entry.get("grammar_ops"):
+            m.append("grammar_ops")
         return m
     if kind == "scenario":
         return ["fresh", "run"]
@@ -126,16 +141,16 @@ def moments_of(kind, entry):
     if kind == "problem":
         return ["fresh", "evaluated", "preprocessed", "optimized"]
     if kind == "grammar":
-        return ["fresh", "validated", "edited"]
+        return ["fresh", "validated", "edited", "ops"]
     if kind == "cache":
         return ["fresh", "filled"]
     raise ValueError(kind)
 
 
-ALL_MOMENTS = {"discipline": ["fresh", "executed", "linearized", "failed"], "scenario": ["fresh", "run"],
+ALL_MOMENTS = {"discipline": ["fresh", "executed", "linearized", "failed", "grammar_ops"], "scenario": ["fresh", "run"],
                "function": ["fresh", "evaluated"], "space": ["fresh", "used", "edited"],
                "problem": ["fresh", "evaluated", "preprocessed", "optimized"],
-               "grammar": ["fresh", "validated", "edited"], "cache": ["fresh", "filled"]}
+               "grammar": ["fresh", "validated", "edited", "ops"], "cache": ["fresh", "filled"]}
 
 
 # =========================================================================== generic comparison
@@ -771,9 +786,11 @@ def _path_head(desc):
 
 def draw_inputs(entry, obj, rng, k):
     inp = entry["inputs"]
-    if getattr(inp, "needs_obj", False):
-        return inp(rng, k, obj=obj)
-    return inp(rng, k)
+    x = inp(rng, k, obj=obj) if getattr(inp, "needs_obj", False) else inp(rng, k)
+    if entry.get("partial_inputs"):
+        # grammar life moments: leave names out at random so that required names and defaults decide the outcome
+        x = {n: v for n, v in x.items() if rng.random() < 0.55}
+    return x
 
 
 # --------------------------------------------------------------------------- discipline adapter
@@ -807,6 +824,16 @@ def apply_moment_discipline(entry, obj, moment, rng, rep):
             reset_status(obj)
             return False
         return True
+    if moment == "grammar_ops":
+        from vlib.gen import c20_objects as gobj
+
+        if entry.get("ops_pre_execute"):
+            attempt(disc_exec, obj, draw_inputs(entry, obj, rng, 400))
+            reset_status(obj)
+        done = gobj.apply_grammar_ops({"in": obj.io.input_grammar, "out": obj.io.output_grammar}, entry["ops"])
+        rep.count("grammar_ops_applied", done)
+        entry["partial_inputs"] = True
+        return True
     if moment == "failed":
         disc_exec(obj, draw_inputs(entry, obj, rng, 300))
         res = attempt(disc_exec, obj, entry["fail"])
@@ -834,6 +861,14 @@ def judge_discipline(cx, entry, o, r, rng, moment):
         reset_status(r)
         if entry.get("twin_obj") is not None:
             reset_status(entry["twin_obj"])
+    if moment == "grammar_ops":
+        for label, go, gr in (("input", o.io.input_grammar, r.io.input_grammar), ("output", o.io.output_grammar, r.io.output_grammar)):
+            for k, (a, b) in enumerate(zip(_grammar_exercise(go), _grammar_exercise(gr))):
+                rep.count("behaviour_comparisons")
+                rep.count("grammar_validation_verdicts_compared")
+                d = same_outcome(a, b, 0.0, f"{label}-grammar-validate[{k}]")
+                if d:
+                    cx.fail("behaviour", f"{label}-grammar-validation-verdicts-differ", d, observed=b, expected=a)
     twin = entry.get("twin_obj")  # file based cache: a second original on another file plays the original's part
     ref = twin if twin is not None else o
     # replay the inputs of the life moment: both must answer from their cache (hit), identically
@@ -1319,22 +1354,17 @@ def judge_problem(cx, entry, o, r, rng, moment):
 
 # --------------------------------------------------------------------------- grammar adapter
 def _grammar_probes(g):
+    from vlib.gen.c20_objects import grammar_probe_value
+
     names = list(g.names)
-    ok = {}
-    for n in names:
-        base = n.split(":")[-1]
-        ok[n] = {"a": 2.5, "b": np.array([1.0, 2.0]), "c": "text", "n": 3}.get(base, 1.0)
-    probes = [dict(ok), {k: v for k, v in ok.items() if not k.endswith("c")}, {}, {k: v for k, v in ok.items() if not k.endswith("a")}]
-    bad = dict(ok)
-    for n in names:
-        if n.endswith("a"):
-            bad[n] = "not a float"
-    probes.append(bad)
-    bad2 = dict(ok)
-    for n in names:
-        if n.endswith("b"):
-            bad2[n] = 3
-    probes.append(bad2)
+    ok = {n: grammar_probe_value(g, n) for n in names}
+    probes = [dict(ok), {}]
+    for n in names[:8]:  # one name left out: decides on required names
+        probes.append({k: v for k, v in ok.items() if k != n})
+    for n in names[:4]:  # one value of a wrong type: decides on the types
+        bad = dict(ok)
+        bad[n] = "not a number" if not isinstance(ok[n], str) else 3
+        probes.append(bad)
     probes.append(dict(ok, unknown_name=1.0))
     return probes
 
@@ -1348,6 +1378,11 @@ def _grammar_exercise(g):
 
 def apply_moment_grammar(entry, g, moment, rng, rep):
     if moment == "fresh":
+        return True
+    if moment == "ops":
+        from vlib.gen import c20_objects as gobj
+
+        rep.count("grammar_ops_applied", gobj.apply_grammar_ops({"in": g, "out": g}, entry["ops"]))
         return True
     _grammar_exercise(g)
     if moment == "edited":
@@ -1369,6 +1404,7 @@ def judge_grammar(cx, entry, o, r, rng, moment):
     eo = _grammar_exercise(o)
     for k, (a, b) in enumerate(zip(eo, er)):
         rep.count("behaviour_comparisons")
+        rep.count("grammar_validation_verdicts_compared")
         d = same_outcome(a, b, 0.0, f"validate[{k}]")
         if d:
             cx.fail("behaviour", "validation-verdicts-differ", d, observed=b, expected=a)
@@ -1546,7 +1582,7 @@ def run_case_process(cx, case, entry, kind, o, rng, rep, scratch, tag, builder, 
         with open(fin, "wb") as f:
             pickle.dump({"kind": kind, "obj": o, "payload": payload}, f)
     except Exception as e:
-        rep.case((case["entry"], moment, "process"), nontrivial=False)
+        rep.case(case_signature(case), nontrivial=False)
         rep.count("round_trips_that_raised")
         cx.fail("roundtrip", f"raises:{type(e).__name__}:{unpicklable_attribute(o)}", f"{type(e).__name__}: {e}"[:400])
         return
@@ -1568,7 +1604,7 @@ def run_case_process(cx, case, entry, kind, o, rng, rep, scratch, tag, builder, 
     if got["status"] == "raise":
         cx.fail("roundtrip", "restoring-or-using-in-a-fresh-interpreter-raises:" + got["error"].split(":")[0], got["error"],
                 observed=got.get("traceback"))
-        rep.case((case["entry"], moment, "process"), nontrivial=False)
+        rep.case(case_signature(case), nontrivial=False)
         return
     # the original's part is played by the original itself, or by its twin when a file based cache is attached
     ref = entry.get("twin_obj") if entry.get("twin_obj") is not None else o
@@ -1594,7 +1630,13 @@ def run_case_process(cx, case, entry, kind, o, rng, rep, scratch, tag, builder, 
         d = same_outcome(exp["counters_after"], got["result"]["counters_after"], 0.0, "counters_after")
         if d:
             cx.fail("counters", "diverge-after-identical-use:" + _path_head(d), d)
-    rep.case((case["entry"], moment, "process"), nontrivial=True)
+    rep.case(case_signature(case), nontrivial=True)
+
+
+def case_signature(case):
+    ops = case.get("ops")
+    shape = tuple(f"{w}:{op}" for w, op, _ in ops) if ops else ()
+    return (case["entry"], case["moment"], case["protocol"], shape, bool(case.get("pre_execute")))
 
 
 # =========================================================================== one case
@@ -1625,6 +1667,15 @@ def run_case(case, rep, scratch):
         return
     kind, o = entry["kind"], entry["obj"]
     apply_moment, judge, view, state = KINDS[kind]
+    if moment in ("ops", "grammar_ops"):
+        if "ops" not in case:  # replay of an old witness or a hand written case
+            case["ops"] = gobj.random_grammar_ops(np.random.default_rng([case["seed"], 3]), kind == "discipline")
+        entry["ops"] = [list(op) for op in case["ops"]]
+        entry["grammar_ops"] = True
+        entry["ops_pre_execute"] = bool(case.get("pre_execute"))
+        rep.count("grammar_op_sequences")
+        if gobj.has_cached_read_then_required_edit(entry["ops"]):
+            rep.count("grammar_op_sequences_with_cached_read_then_required_edit")
     if moment not in moments_of(kind, entry):
         return
     try:
@@ -1650,7 +1701,7 @@ def run_case(case, rep, scratch):
     try:
         r = roundtrip(o, protocol, scratch, tag)
     except Exception as e:
-        rep.case((name, moment, protocol), nontrivial=False)
+        rep.case(case_signature(case), nontrivial=False)
         rep.count("round_trips_that_raised")
         mech = unpicklable_attribute(o)
         cx.fail("roundtrip", f"raises:{type(e).__name__}:{mech}", f"{type(e).__name__}: {e}"[:400],
@@ -1700,7 +1751,7 @@ def run_case(case, rep, scratch):
         if moment != "fresh":
             rep.count("counter_checks_with_nonzero_counters")
         if cr[0] == "raise":
-            rep.case((name, moment, protocol), nontrivial=False)
+            rep.case(case_signature(case), nontrivial=False)
             return
     for where, missing, extra in attribute_differences(o, r)[:5]:
         rep.observe("instance-attributes-differ-after-restore:" + re.sub(r"^.*<", "<", where) + ":" + ",".join(missing + ["+" + e for e in extra])[:80],
@@ -1749,7 +1800,7 @@ def run_case(case, rep, scratch):
         cx.fail("behaviour", f"using-the-restored-raises-unexpectedly:{type(e).__name__}", traceback.format_exc()[-600:])
         rep.inconclusive(f"adapter raised while judging {name}/{moment}/{protocol}: {type(e).__name__}")
         nontrivial = False
-    rep.case((name, moment, protocol), nontrivial=nontrivial)
+    rep.case(case_signature(case), nontrivial=nontrivial)
 
 
 def unpicklable_attribute(root):
@@ -1828,6 +1879,24 @@ def all_cases(tier, seed):
     for i, name in enumerate(names):
         moments = ALL_MOMENTS[kinds[name]]
         for j, m in enumerate(moments):
+            if m in ("ops", "grammar_ops"):
+                if m == "grammar_ops" and name not in gobj.GRAMMAR_OPS_ENTRIES:
+                    continue
+                in_disc = m == "grammar_ops"
+                n_rand = {"quick": 10, "thorough": 40}[tier]
+                seqs = [("directed", ops) for ops in gobj.DIRECTED_GRAMMAR_OPS]
+                rng_ops = np.random.default_rng([subseed(seed, "ops", name) % (1 << 32)])
+                seqs += [("random", gobj.random_grammar_ops(rng_ops, in_disc)) for _ in range(n_rand)]
+                plain = [p for p in PROTOCOLS if p != "deepcopy"]
+                for q, (origin, ops) in enumerate(seqs):
+                    p = plain[(i + q + seed) % len(plain)]
+                    if tier == "thorough" and q % 9 == 4:
+                        p = "process"
+                    cases.append({"entry": name, "moment": m, "protocol": p, "ops": ops, "ops_origin": origin,
+                                  "pre_execute": bool(in_disc and q % 3 == 2),
+                                  "seed": subseed(seed, "case", name, m, p, q), "n": n})
+                    n += 1
+                continue
             if tier == "quick":
                 protos = [PROTOCOLS[(i + j + seed) % len(PROTOCOLS)]]
                 if protos[0] == "deepcopy":  # deepcopy findings are only observations: always pair with pickle
